@@ -356,7 +356,29 @@ func (h *fqHarness) newJob(name string, interval time.Duration) (*quartz.JobDeta
 }
 
 // fqDriver issues one API call with a deadline and judges the error it returns. (Its name is looked for on the stack.)
+// fqFlags: the paused flag of every stored job, by key
+func (h *fqHarness) fqFlags() map[string]bool {
+	m := map[string]bool{}
+	stored, _ := h.q.inner.ScheduledJobs(nil)
+	for _, sj := range stored {
+		m[sj.JobDetail().JobKey().String()] = sj.JobDetail().Options().Suspended
+	}
+	return m
+}
+
 func (h *fqHarness) fqDriver(what string, f func() error) (err error, hung bool) {
+	before := h.fqFlags()
+	defer func() {
+		// an API call that returned the queue's error must not leave a job stored with a changed paused flag (it would silently stop
+		// firing, or fire although listed as paused); that the job may be gone after a failed re-push is the non-transactional queue interface
+		if err != nil && errors.Is(err, errInjected) {
+			for k, a := range h.fqFlags() {
+				if b, ok := before[k]; ok && a != b {
+					h.rep.Violations = append(h.rep.Violations, fmt.Sprintf("C15 %s returned the queue's error but job %s is still stored with its paused flag changed from %v to %v (%s)", what, k, b, a, h.plan))
+				}
+			}
+		}
+	}()
 	h.q.apiInjected.Store(0)
 	h.q.apiActive.Store(true)
 	done := make(chan error, 1)
